@@ -146,6 +146,8 @@ class Program:
         for f in self.funcs:
             if f.is_const_item:
                 self.consts[f.name] = f
+                if f.impl_span:
+                    self._classify_impl(f)
                 continue
             self._classify_impl(f)
             self.by_name.setdefault(f.name, f)
@@ -387,31 +389,36 @@ class Program:
         f = self.consts.get(name)
         if f is not None:
             return f
-        # suffix match:  polynomials::LOG vs LOG ; module::Module::LIGHT vs module::<impl at ..>::LIGHT
-        last = name.split('::')[-1]
-        cands = [c for n, c in self.consts.items() if n.split('::')[-1] == last and '{constant' not in n]
-        if '::promoted[' in name or last.startswith('promoted['):
-            cands = [c for n, c in self.consts.items() if n == name or name.endswith('::' + n) or n.endswith('::' + name)]
-        if len(cands) == 1:
-            return cands[0]
-        if len(cands) > 1:
-            # prefer longest common suffix of path segments (ignoring impl blocks)
-            segs = [s for s in name.split('::')]
-            best = None
-            bestn = -1
-            for c in cands:
-                cs = [s for s in c.name.split('::') if not s.startswith('<impl')]
-                n = 0
-                while n < len(cs) and n < len(segs) and cs[-1 - n] == segs[-1 - n]:
-                    n += 1
-                if n > bestn:
-                    best, bestn = c, n
-                elif n == bestn:
-                    best = None if best is not None and best is not c else best
-            if best is not None:
-                return best
+        key = ('const', name)
+        if key in self._resolve_cache:
+            return self._resolve_cache[key]
+
+        def segs(n, c=None):
+            out = []
+            for x in n.split('::'):
+                if x.startswith('<impl'):
+                    if c is not None and c.self_ty:
+                        out.append(strip_generics(short(c.self_ty)))
+                    continue
+                out.append(x)
+            return out
+        want = segs(name)
+        best, bestn, tie = None, 0, False
+        for n, c in self.consts.items():
+            cs = segs(n, c)
+            k = 0
+            while k < len(cs) and k < len(want) and cs[-1 - k] == want[-1 - k]:
+                k += 1
+            if k == 0 or (k < len(cs) and k < len(want)):
+                continue       # neither is a suffix of the other
+            if k > bestn:
+                best, bestn, tie = c, k, False
+            elif k == bestn and c is not best:
+                tie = True
+        if tie:
             raise Unsupported('ambiguous const %s' % name)
-        return None
+        self._resolve_cache[key] = best
+        return best
 
 
 def short(t):
@@ -671,6 +678,8 @@ class Interp:
             return SliceRef(l, 0, len(l))
         if k == 'fn':
             return FnRef(c.val)
+        if k == 'closure':
+            return self.mk([c.val], 'closure')
         if k == 'named':
             return self.named_const(c.val)
         raise Unsupported('const %r' % (c,))
